@@ -16,6 +16,8 @@ type Val struct {
 	Typ types.Type
 	Clo *Closure // statically known function value
 	Loc *Loc     // interior pointer (address of scalar field / element)
+	ArrRef *Term     // slice value created by slicing a local array: reference of that array (element access goes to its memory)
+	ArrT   types.Type
 	GT  string   // ghost map type text (ghost values only)
 	GPkg *types.Package
 }
